@@ -10,7 +10,7 @@
 //     (amb counts queries that matched more than one j; '?' = matches none: not a subdivision point)
 //   * in R^1 with s1 = 0 the index is additionally decoded arithmetically, j = round(x * n / s2), and must
 //     agree with the table ('?' otherwise).
-// header:  motion space=<r1|rn|so2|se2|cmpd|cmpd2|dubins|dubinssym|rs|owen|vana|vanaowen> validator=<default|discrete>
+// header:  motion space=<r1|rn|so2|se2|cmpd|cmpd2|dubins|dubinssym|rs|owen|vana|vanaowen|proj|tb> validator=<default|discrete>
 //                 frac=<f> lo=<f> hi=<f> dim=<d> f=<k,..> rho=<f>
 //          f lists the segment-count factor of every space node in pre-order (compound first, then its parts).
 // ops:     invalid idx <j>*        -> ok        (scripted predicate: these subdivision indices are invalid)
@@ -18,6 +18,10 @@
 //                                               real lies in its [lo,hi]; cm lines then end with inv=<indices in the box>)
 //          gms <count> <endpoints> <alloc> <size> <st> <st> -> ret=<k> size=<n> slots=<S|G|j/c|u|0|?>,.. amb=<k>
 //                                               (getMotionStates into a vector of <size> sentinel states / nullptrs)
+//          (space=proj: unit sphere in R^3 as a ProjectedStateSpace with the default ConstrainedMotionValidator, rho = delta;
+//           the subdivision is the manifold traversal itself: index j = j-th state of the harness' own
+//           discreteGeodesic(s1,s2,interpolate=true), index n = s2; cm lines end with reached=<0|1> sat=<0|1>, lvs=g<k>;
+//           hint <n> <reached> <sat> <extra>; a trailing 'x' in q= is the candidate a traversal that gave up looked at last)
 //          hint <k> [<0|1>]        -> ok        (segment count [and Owen getPath outcome] for the model where it cannot compute distances)
 //          seg <st> <st>           -> n=<k> dist=<f> L=<f>
 //          cm2 <st> <st>           -> v=<0|1> n=<k> q=<j,..|-> cnt=<a>/<b>-><a'>/<b'> amb=<k>
@@ -40,6 +44,10 @@
 #include <ompl/base/spaces/OwenStateSpace.h>
 #include <ompl/base/spaces/VanaStateSpace.h>
 #include <ompl/base/spaces/VanaOwenStateSpace.h>
+#include <ompl/base/Constraint.h>
+#include <ompl/base/ConstrainedSpaceInformation.h>
+#include <ompl/base/spaces/constraint/ProjectedStateSpace.h>
+#include <ompl/base/spaces/constraint/TangentBundleStateSpace.h>
 #include <ompl/util/Console.h>
 
 namespace ob = ompl::base;
@@ -117,13 +125,30 @@ public:
     double r1End = 1.0;
 };
 
+// unit sphere in R^3: f(x) = |x| - 1
+class Sphere : public ob::Constraint
+{
+public:
+    Sphere() : ob::Constraint(3, 1)
+    {
+    }
+    void function(const Eigen::Ref<const Eigen::VectorXd> &x, Eigen::Ref<Eigen::VectorXd> out) const override
+    {
+        out[0] = x.norm() - 1.0;
+    }
+    void jacobian(const Eigen::Ref<const Eigen::VectorXd> &x, Eigen::Ref<Eigen::MatrixXd> out) const override
+    {
+        out = x.transpose().normalized();
+    }
+};
+
 static std::string qstr(const std::vector<long> &q)
 {
     if (q.empty())
         return "-";
     std::string s;
     for (size_t i = 0; i < q.size(); ++i)
-        s += (i ? "," : "") + (q[i] < 0 ? std::string("?") : std::to_string(q[i]));
+        s += (i ? "," : "") + (q[i] == -2 ? std::string("x") : q[i] < 0 ? std::string("?") : std::to_string(q[i]));
     return s;
 }
 
@@ -190,6 +215,7 @@ int main()
     b3.setLow(*lo);
     b3.setHigh(*hi);
     ob::StateSpacePtr space;
+    bool projSpace = false, tbSpace = false;
     size_t needFac = 1;
     std::vector<ob::StateSpacePtr> nodes;  // pre-order, for the factors
     if (spn == "r1" || spn == "rn")
@@ -251,6 +277,25 @@ int main()
         space = s;
         nodes = {space};
     }
+    else if (spn == "proj")
+    {
+        // ProjectedStateSpace over R^3 with the unit-sphere constraint; ConstrainedSpaceInformation installs the
+        // ConstrainedMotionValidator as default.  rho is the space's delta (geodesic step).
+        auto con = std::make_shared<Sphere>();
+        auto ps = std::make_shared<ob::ProjectedStateSpace>(rv(3), con);
+        space = ps;
+        nodes = {space};
+        projSpace = true;
+    }
+    else if (spn == "tb")
+    {
+        // TangentBundleStateSpace on the same sphere; TangentBundleSpaceInformation wraps the 3-argument checkMotion
+        auto con = std::make_shared<Sphere>();
+        space = std::make_shared<ob::TangentBundleStateSpace>(rv(3), con);
+        nodes = {space};
+        projSpace = true;
+        tbSpace = true;
+    }
     else if (spn == "vana")
     {
         auto s = std::make_shared<ob::VanaStateSpace>(*rho);
@@ -283,7 +328,18 @@ int main()
         space->setLongestValidSegmentFraction(*frac);
         for (size_t i = 0; i < nodes.size(); ++i)
             nodes[i]->setValidSegmentCountFactor(fac[i]);
-        si = std::make_shared<ob::SpaceInformation>(space);
+        if (tbSpace)
+        {
+            si = std::make_shared<ob::TangentBundleSpaceInformation>(space);
+            space->as<ob::ConstrainedStateSpace>()->setDelta(*rho);
+        }
+        else if (projSpace)
+        {
+            si = std::make_shared<ob::ConstrainedSpaceInformation>(space);
+            space->as<ob::ConstrainedStateSpace>()->setDelta(*rho);
+        }
+        else
+            si = std::make_shared<ob::SpaceInformation>(space);
         svc = std::make_shared<Scripted>(si);
         si->setStateValidityChecker(svc);
         if (valn == "discrete")
@@ -329,12 +385,25 @@ int main()
         space->copyFromReals(sentinel, r);
     }
     const double lvSentinel = 12345.678;
-    const bool hintedSpace = spn == "dubins" || spn == "dubinssym" || spn == "rs" || spn == "owen" || spn == "vana" ||
+    const bool hintedSpace = spn == "proj" || spn == "tb" || spn == "dubins" || spn == "dubinssym" || spn == "rs" || spn == "owen" || spn == "vana" ||
                              spn == "vanaowen";
     auto mv = si->getMotionValidator();
 
+    bool projReached = false;
+    std::vector<std::string> projGeo;   // serialised reference traversal g_0 .. g_m
     std::vector<long> boxInv;
-    auto invstr = [&]() -> std::string { return svc->boxMode ? " inv=" + qstr(boxInv) : std::string(); };
+    auto invstr = [&]() -> std::string {
+        return (svc->boxMode ? " inv=" + qstr(boxInv) : std::string()) +
+               (projSpace ? std::string(" reached=") + (projReached ? "1" : "0") + " sat=" +
+                                (space->as<ob::ConstrainedStateSpace>()->getConstraint()->isSatisfied(s2) ? "1" : "0") :
+                            std::string());
+    };
+    // constrained traversal that gave up for geometric reasons: the last candidate it looked at (asked about, then
+    // rejected: step too long / wandered / no closer) is not one of its states; shown as 'x'
+    auto relabel = [&]() {
+        if (projSpace && !projReached && !svc->rec.empty() && svc->rec.back() == -1)
+            svc->rec.back() = -2;
+    };
     // fills svc's table for the pair (s1, s2)
     auto prepare = [&]() -> long {
         long n = (long)space->validSegmentCount(s1, s2);
@@ -344,7 +413,24 @@ int main()
         svc->table.clear();
         svc->rec.clear();
         svc->amb = 0;
-        if (n >= 1 && n <= 100000)
+        if (projSpace)
+        {
+            // subdivision of a constrained motion = the states of the manifold traversal itself, computed here with
+            // validity checking off: g_0 = s1, g_1 .. g_m; index m+1 stands for s2 (pointer identity)
+            std::vector<ob::State *> geo;
+            projReached = space->as<ob::ConstrainedStateSpace>()->discreteGeodesic(s1, s2, true, &geo);
+            n = (long)geo.size();        // m + 1 with m = geo.size() - 1
+            svc->n = n;
+            projGeo.clear();
+            for (size_t j = 0; j < geo.size(); ++j)
+            {
+                projGeo.push_back(ser(space, geo[j]));
+                if (j >= 1)
+                    svc->table[ser(space, geo[j])].push_back((long)j);
+                space->freeState(geo[j]);
+            }
+        }
+        else if (n >= 1 && n <= 100000)
             for (long j = 0; j <= n; ++j)
             {
                 space->interpolate(s1, s2, (double)j / (double)n, tmp);
@@ -512,8 +598,31 @@ int main()
                     si->freeState(x);
         }
         else if (op == "hint" && ((t.size() == 2 && vp::parseNat(t[1])) ||
-                                  (t.size() == 3 && vp::parseNat(t[1]) && (t[2] == "0" || t[2] == "1"))))
+                                  (t.size() == 3 && vp::parseNat(t[1]) && (t[2] == "0" || t[2] == "1")) ||
+                                  ((t.size() == 4 || t.size() == 5) && vp::parseNat(t[1]) && (t[2] == "0" || t[2] == "1") &&
+                                   (t[3] == "0" || t[3] == "1") && (t.size() == 4 || t[4] == "0" || t[4] == "1"))))
             std::cout << "ok\n";
+        else if (op == "cm3x")
+        {
+            // three-argument check with lastValid.first pre-loaded with a caller-chosen state: on success the storage must
+            // come back bit-identical and the verdict must not depend on what it held
+            size_t i = 1;
+            if (!parseState(t, i, s1) || !parseState(t, i, s2) || !parseState(t, i, lvState) || i != t.size())
+            {
+                std::cout << "bad-op\n";
+                continue;
+            }
+            long n = prepare();
+            unsigned a0 = mv->getValidMotionCount(), b0 = mv->getInvalidMotionCount();
+            std::string before = ser(space, lvState);
+            std::pair<ob::State *, double> lastValid(lvState, lvSentinel);
+            bool v = si->checkMotion(s1, s2, lastValid);
+            relabel();
+            std::cout << "v=" << (v ? 1 : 0) << " n=" << n << " lv="
+                      << (vp::bits(lastValid.second) == vp::bits(lvSentinel) ? std::string("untouched") : vp::bits(lastValid.second))
+                      << " first=" << (ser(space, lvState) == before ? "same" : "changed") << " q=" << qstr(svc->rec) << " "
+                      << cnt(a0, b0) << " amb=" << svc->amb << invstr() << "\n";
+        }
         else if (op == "seg" || op == "cm2" || op == "cm3" || op == "cm3n")
         {
             size_t i = 1;
@@ -540,6 +649,7 @@ int main()
             if (op == "cm2")
             {
                 bool v = si->checkMotion(s1, s2);
+                relabel();
                 std::cout << "v=" << (v ? 1 : 0) << " n=" << n << " q=" << qstr(svc->rec) << " " << cnt(a0, b0)
                           << " amb=" << svc->amb << invstr() << "\n";
             }
@@ -550,6 +660,7 @@ int main()
                 lastValid.first = op == "cm3" ? lvState : nullptr;
                 lastValid.second = lvSentinel;
                 bool v = si->checkMotion(s1, s2, lastValid);
+                relabel();
                 std::string lv, lvs;
                 if (vp::bits(lastValid.second) == vp::bits(lvSentinel))
                     lv = "untouched";
@@ -559,6 +670,18 @@ int main()
                     lvs = "null";
                 else if (ser(space, lvState) == ser(space, sentinel))
                     lvs = "untouched";
+                else if (projSpace)
+                {
+                    // which state of the traversal was handed back
+                    lvs = "?";
+                    std::string b = ser(space, lvState);
+                    for (size_t k = 0; k < projGeo.size(); ++k)
+                        if (projGeo[k] == b)
+                        {
+                            lvs = "g" + std::to_string(k);
+                            break;
+                        }
+                }
                 else
                 {
                     space->interpolate(s1, s2, lastValid.second, tmp);
